@@ -1,4 +1,5 @@
 import GrinVerif.Lemmas.ChainBasic
+import GrinVerif.Lemmas.ChainExampleFacts
 import GrinVerif.Lemmas.ChainApply
 import GrinVerif.Lemmas.ChainImplRefine
 /-! # C02 — every input spends an existing unspent output exactly once, on every fork
@@ -158,4 +159,43 @@ theorem valid_body_has_output (p : Params) (outs : List OutDef) (b : Blk) (iv : 
     (h : validateBody p outs b iv = none) (hpos : 0 < p.reward) : b.outs ≠ [] :=
   outs_ne_nil_of_coinbase p outs b (validateBody_none p outs b iv h).2.2.2.1 (by omega)
 
+/-! ## non-vacuity: the hypotheses hold on the concrete tree of `Lemmas/ChainExamples.lean`
+(0 ── 1 ── 3 ── 4, sibling 2 of 1, invalid child 9 of 1; 3 spends the genesis output 100 and
+4 re-creates that commitment) -/
+section Examples
+open GV.Chain.Ex TxHS
+
+-- the path 0,1,3,4: block 3 spends the genesis output 100, block 4 re-creates commitment 100
+example : ∃ S, applyBlocks {} [G, B1, B3, B4] = .ok S ∧
+    S.leaves = [100, 101, 103, 104, 105, 100] ∧ S.getUnspent 100 = some ⟨5, 3⟩ ∧
+    S.getUnspent 104 = none ∧ S.reported = [100, 105, 103, 101] := ⟨_, rfl, by decide⟩
+
+-- `impl_refines_replay`: hypotheses hold on that path
+example : ∃ S, applyBlocks {} (G :: [B1, B3, B4]) = .ok S ∧ RInv S ∧
+    (∀ c, (S.getUnspent c).isSome = UState.has
+      { utxo := [(101, 1, true), (103, 2, true), (105, 3, true), (100, 3, false)], nrd := [], height := 3 } c) ∧
+    (∀ c, c ∈ S.reported ↔ c ∈ [101, 103, 105, 100]) :=
+  impl_refines_replay P G [B1, B3, B4] _ rfl (by decide)
+    (by
+      intro b hb
+      simp only [List.mem_cons, List.not_mem_nil, or_false] at hb
+      rcases hb with rfl | rfl | rfl <;> exact ⟨⟨by decide, by decide⟩, by decide⟩)
+    (rfl : replay P (genesisState G) [B1, B3, B4] = .ok
+      { utxo := [(101, 1, true), (103, 2, true), (105, 3, true), (100, 3, false)], nrd := [], height := 3 })
+
+-- `rewind_apply_inverse` with a re-created commitment: rewinding 4 and then 3 un-spends the
+-- *old* instance of 100 at position 0 (the re-save of `output_pos`)
+example : ∃ S3 S4, applyBlocks {} [G, B1, B3] = .ok S3 ∧ applyBlockImpl S3 B4 = .ok S4 ∧
+    (rewindSingleBlock S4 B4 S3.leaves.length).getUnspent 100 = none ∧
+    (rewindSingleBlock S4 B4 S3.leaves.length).getUnspent 104 = some ⟨3, 2⟩ ∧
+    (rewindSingleBlock (rewindSingleBlock S4 B4 4) B3 2).getUnspent 100 = some ⟨0, 0⟩ :=
+  ⟨_, _, rfl, rfl, by decide⟩
+
+-- `fork_switch`: from the tip of 0,1,3,4 to the sibling branch 0,2
+example : ∃ P0 S T, applyBlocks {} [G] = .ok P0 ∧ applyBlocks P0 [B1, B3, B4] = .ok S ∧
+    applyBlocks P0 [B2] = .ok T ∧
+    ∃ T', rewindAndApplyFork S (withPrevSizes P0.leaves.length [B1, B3, B4]).reverse [B2] = .ok T' ∧
+      T'.reported = T.reported ∧ T'.reported = [102, 100] := ⟨_, _, _, rfl, rfl, rfl, _, rfl, by decide⟩
+
+end Examples
 end GV.Props.C02
